@@ -16,7 +16,7 @@ def run(tier, seed):
                          'every simulated lane, a well-formed waveform whose initial and final values are the gate-by-gate netlist values -- invariant over the two nested loops and the '
                          'level loop, callee by contract. WaveSim.s_to_c writes, for every (pseudo) primary input and lane, exactly the waveform encoding of its (initial, time, final) assignment into the first three entries of its slot and nothing else. Tier B (bounded): SimOps translation and the whole chain on real runs against the netlist oracle incl. '
                          'overflowing capacities.')
-    res.report = verify(wave_c.targets() + wave_kernels_c.targets_c13() + wave_kernels_c.targets_assign() + wave_comp_c.targets() + wave_comp_c.targets_s_to_c(), timeout_s=30 if tier == 'quick' else 120)
+    res.report = verify(wave_c.targets() + wave_kernels_c.targets_c13() + wave_kernels_c.targets_assign() + wave_comp_c.targets() + wave_comp_c.targets_s_to_c() + wave_comp_c.targets_c13(), timeout_s=30 if tier == 'quick' else 120)
     res.bounded = [wave_parts.part_c03(tier, seed)]
     res.assumptions = ['A-float: time stamps are extended reals (TMIN=-inf, TMAX=+inf, TMAX_OVL a larger +inf; sentinel + delay absorbs; finite + delay exact and below TMAX; '
                        't - TMIN exceeds every delay); rounding of finite float32/float64 sums is not modelled; Q2 uses of this model only that a sentinel plus a delay stays a sentinel',
